@@ -891,9 +891,14 @@ class DataAccessObject(HasGeneric[T]):
                 mapped_by_parent.add(rel.key)
             state.keep_alive.append(parent_dao)
             base_result = parent_dao.from_dao(state=state)
+            # a class that is alternatively mapped itself is created through its own mapping, whose constructor takes
+            # the mapped values: the DAO holds them as they are
+            takes_mapped_values = issubclass(self.original_class(), AlternativeMapping)
             for argument in argument_names:
                 # also the arguments that keep their name in the mapping: the DAO holds the mapped value
-                if argument in mapped_by_parent or not hasattr(self, argument):
+                if (
+                    argument in mapped_by_parent and not takes_mapped_values
+                ) or not hasattr(self, argument):
                     try:
                         base_kwargs[argument] = getattr(base_result, argument)
                     except AttributeError:
